@@ -27,3 +27,6 @@ pub const DIAGNOSTIC_CONTEXT_LINES: usize = 8;
 pub fn set_minimal(minimal: bool) {
     output::Output::set_minimal(minimal);
 }
+
+#[cfg(lace_verif)]
+pub mod verif;
